@@ -5,6 +5,8 @@
 package binaryheap
 
 import (
+	"encoding/json"
+
 	"github.com/emirpasic/gods/v2/containers"
 )
 
@@ -19,7 +21,13 @@ func (heap *Heap[T]) ToJSON() ([]byte, error) {
 
 // FromJSON populates the heap from the input JSON representation.
 func (heap *Heap[T]) FromJSON(data []byte) error {
-	return heap.list.FromJSON(data)
+	var elements []T
+	err := json.Unmarshal(data, &elements)
+	if err == nil {
+		heap.Clear()
+		heap.Push(elements...)
+	}
+	return err
 }
 
 // UnmarshalJSON @implements json.Unmarshaler
